@@ -15,7 +15,7 @@ ASSUMPTIONS = [
 ]
 
 OPS = ["l,i,r4096,q", "r1,q", "r100000,q", "v,r32768,q", "d,f,r777,q", "f,m0,m2,l", "g0,g1,g2,g1,g9", "c0,c1,c2,c1", "v,d,f,v", "k,v,r4096", "h,k,m0",
-       "g1,r50,g2,r50,q", "i,l,m0,m1,m256", "r33000,g0,c0,q"]
+       "g1,r50,g2,r50,q", "i,l,m0,m1,m256", "r33000,g0,c0,q", "p10,g1,p7,g2,p3,q", "p1,c1,g1,p100000,g0", "g1,p10,g0,g2,r999"]
 
 
 def mutants_of(rng, f, tier):
@@ -80,6 +80,20 @@ def run(res, tier, only_case=None):
     # ---- (1) header parser
     files = hdrgen.build_all(rng, tier)
     lines = c13.lines_for(files)
+    # pins of another (shorter or longer) hash type whose digest bytes agree with the file's as far as they go: the type
+    # check must stop the comparison before it runs over the end of the shorter buffer
+    extra = []
+    for tag, f in files[:: max(1, len(files) // (60 if tier == "quick" else 600))]:
+        l = zckfmt.parse_lead(f)
+        if l is None:
+            continue
+        dg = f[l["dloc"]:l["lead"]]
+        for pt in (0, 1, 2, 3):
+            if pt != l["ht"]:
+                pd = (dg + bytes(64))[:zckfmt.DSIZE[pt]]
+                extra.append((tag + ":pin-type%d" % pt, f, "O %d %s - %s" % (pt, pd.hex(), vlib.hexs(f))))
+    files = files + [(t, f) for t, f, _ in extra]
+    lines = lines + [x[2] for x in extra]
     mo, _ = vlib.run_cases(model, lines, wd, "model")
     io, errs = vlib.run_cases_resilient(hdr, lines, wd, "hdr", env=env)
     for (tag, f), line, i, m in zip(files, lines, io, mo):
@@ -95,7 +109,7 @@ def run(res, tier, only_case=None):
             res.violation("correspondence", key.replace("c03:", "c03-corr:"), "model predicts %s on a header (%s) the sanitized library handles" % (mres, tag), {"line": line, "tag": tag})
     # ---- (2) API call sequences on complete files
     nfiles = 10 if tier == "quick" else 60
-    base = filegen.nocomp_files(rng, nfiles) + filegen.zstd_files(rng, nfiles, wd, "plain")
+    base = filegen.zstd_crafted_files(rng) + filegen.nocomp_files(rng, nfiles) + filegen.zstd_files(rng, nfiles, wd, "plain")
     def run_batch(cases):
         """run one batch of (tag, line) cases and judge it (batches keep the memory bounded in the thorough tier)"""
         if not cases:
@@ -117,20 +131,24 @@ def run(res, tier, only_case=None):
             res.sample({"tag": cases[0][0], "ops": cases[0][1].split()[-1], "impl": ao[0][:200]})
 
     for f, data, _ in base:
-        cases = []
+        cases, held = [], 0
         variants = [("valid", f)] + mutants_of(rng, f, tier)
         if tier == "quick":
             variants = variants[:1] + rng.sample(variants[1:], min(len(variants) - 1, 14))
         elif len(f) > 150000:
             variants = variants[:1] + rng.sample(variants[1:], min(len(variants) - 1, 25))
         for tag, g in variants:
-            for ops in (rng.sample(OPS, 3) if tier == "quick" else (OPS if len(f) < 150000 else rng.sample(OPS, 5))):
+            for ops in ((OPS if (tag == "valid" and len(f) < 150000) else rng.sample(OPS, 3)) if tier == "quick" else (OPS if len(f) < 150000 else rng.sample(OPS, 5))):
                 if "k" in ops and tag.startswith("clen=2^"):
                     # copying into a target whose index claims a 2^40-byte chunk legitimately creates a
                     # terabyte-sized sparse file; validating that afterwards is slow, not a hang
                     continue
                 src = f if ("k" in ops or "h" in ops) else None
                 cases.append((tag, "F %s %s %s" % (vlib.hexs(g), vlib.hexs(src) if src else "-", ops)))
+                held += len(cases[-1][1])
+                if held > 100 * 1000 * 1000:      # keep a batch's case lines under ~100 MB
+                    run_batch(cases)
+                    cases, held = [], 0
         run_batch(cases)
     # delta sources whose chunk checksum type (digest length) differs from the target's
     cases = []
